@@ -1547,7 +1547,13 @@ func scenarios(prop string) []*explore.Scenario {
 		out = nil
 		for _, v := range []string{"identical", "transform-changed", "yaml-error", "unknown-field", "keys-changed", "maxfields-changed", "output-pair-added"} {
 			r := params{name: "reload/" + v, conns: [][]op{{L("appA"), L("appB"), L("appA")}, {L("appA")}}, gens: 1, chunkRecs: 1, memCap: 2, opt: fakeup.Options{}, reload: v, advances: 0}
-			add(r, 1, 2)
+			// bound 2 of one such scenario is ~700k executions: the thorough tier goes there for the two valid reloads and keeps
+			// bound 1 for the refused ones, so that its time budget is spread over all scenarios
+			if v == "identical" || v == "transform-changed" {
+				add(r, 1, 2)
+			} else {
+				add(r, 1, 1)
+			}
 		}
 		// the real flush tick does work: the clients pause for longer than the flush interval between records
 		S := op{kind: "settle"}
@@ -1555,27 +1561,27 @@ func scenarios(prop string) []*explore.Scenario {
 		add(tk, 1, 2)
 		// the singleton orchestrator under reload, incl. take-over of its queue
 		sg := params{name: "reload-singleton/transform-changed", conns: [][]op{{L("appA"), L("appB"), L("appA")}, {L("appA")}}, gens: 1, chunkRecs: 1, memCap: 2, opt: fakeup.Options{}, reload: "transform-changed", singleton: true, advances: 0}
-		add(sg, 1, 2)
+		add(sg, 1, 1)
 		st := sg
 		st.name = "reload-singleton-takeover/identical"
 		st.reload = "identical"
 		st.conns = [][]op{{L("appA"), L("appB")}}
 		st.oldDown = true
-		add(st, 1, 2)
+		add(st, 1, 1)
 		// two output/buffer pairs: the queues of BOTH outputs are taken over
 		tp := params{name: "reload-takeover-two-outputs/identical", conns: [][]op{{L("appA"), L("appB")}}, gens: 1, chunkRecs: 1, memCap: 2, opt: fakeup.Options{}, reload: "identical", oldDown: true, twoPairs: true, advances: 0}
-		add(tp, 1, 2)
+		add(tp, 1, 1)
 		t2 := tp
 		t2.name = "reload-takeover-second-output-only/identical"
 		t2.oldDownOut2 = true
-		add(t2, 1, 2)
+		add(t2, 1, 1)
 		// key values that need escaping in the pipeline ID / queue directory name
 		ek := params{name: "reload-takeover-escaped-keys/identical", conns: [][]op{{L("app%A,x"), L("app,%2C")}}, gens: 1, chunkRecs: 1, memCap: 2, opt: fakeup.Options{}, reload: "identical", oldDown: true, advances: 0}
-		add(ek, 1, 2)
+		add(ek, 1, 1)
 		// two signals: failed then successful reload, successful then failed, successful twice
 		for _, pair := range [][2]string{{"yaml-error", "transform-changed"}, {"transform-changed", "unknown-field"}, {"identical", "transform-changed"}} {
 			th := params{name: "reload-twice/" + pair[0] + "+" + pair[1], conns: [][]op{{L("appA"), L("appB"), L("appA")}, {L("appA")}}, gens: 1, chunkRecs: 1, memCap: 2, opt: fakeup.Options{}, reload: pair[0], secondHUP: pair[1], advances: 0}
-			add(th, 1, 2)
+			add(th, 1, 1)
 		}
 		for _, v := range []string{"identical", "transform-changed"} {
 			r := params{name: "reload-takeover/" + v, conns: [][]op{{L("appA"), L("appB")}}, gens: 1, chunkRecs: 1, memCap: 2, opt: fakeup.Options{}, reload: v, oldDown: true, advances: 0}
